@@ -272,6 +272,16 @@ class SymL:
         """(start, stop, step) of a range object"""
         return r[1], r[2], (r[3] if len(r) > 3 else 1)
 
+    def rangesum(self, a, lo, hi):
+        """sum(a[lo:hi]) as the ghost function the executor uses for sums of contiguous slices"""
+        k = a.kind if a.kind != 'bool' else 'int'
+        return z3.Function('RANGESUM_%s' % k, a.term.sort(), z3.IntSort(), z3.IntSort(), sort_of(k))(a.term, _z(lo), _z(hi))
+
+    def rangesum_axioms(self, a):
+        """the recurrence that defines partial sums from 0: S(0,0) = 0, S(0,t+1) = S(0,t) + a[t]"""
+        n = a.shape[0]
+        return [self.rangesum(a, 0, 0) == 0, self.forall(0, n, lambda t: self.rangesum(a, 0, t + 1) == self.rangesum(a, 0, t) + a[t])]
+
     def slice_is(self, piece, base, lo, n):
         """piece (element of a list of slices of `base`) is base[lo:lo+n]"""
         plo, pn = piece
@@ -408,6 +418,12 @@ class ConL:
 
     def range_parts(self, r):
         return r.start, r.stop, r.step
+
+    def rangesum(self, a, lo, hi):
+        return sum(a[int(lo):int(hi)])
+
+    def rangesum_axioms(self, a):
+        return []
 
     def slice_is(self, piece, base, lo, n):
         import numpy as np
